@@ -770,7 +770,8 @@ def request_charset_level(ctx):
     rng = ctx.rng("reqcharset")
     words = {"windows-1252": "Caf\u00e9 \u20ac \u0160koda", "iso-8859-2": "\u0141ukasz \u017b\u00f3\u0142\u0107-\u0160\u0165astn\u00fd", "iso-8859-1": "d\u00e9j\u00e0 vu \u00a7",
              "utf-8": "caf\u00e9 \u65e5\u672c \U0001f600", "koi8-r": "\u041f\u0440\u0438\u0432\u0435\u0442"}
-    forms = ["%s; charset=%s", "%s;charset=%s", "%s; component=VEVENT; charset=%s", "%s; x=y ;  charset=%s", "%s; charset=%s; method=PUBLISH", "%s; CHARSET=%s"]
+    forms = ["%s; charset=%s", "%s;charset=%s", "%s; component=VEVENT; charset=%s", "%s; x=y ;  charset=%s", "%s; charset=%s; method=PUBLISH", "%s; CHARSET=%s",
+             "%s; Charset=%s", '%s; charset="%s"']
     for i in range(ctx.n(30, 600)):
         cs = rng.choice(list(words))
         book = rng.random() < 0.3
@@ -785,8 +786,6 @@ def request_charset_level(ctx):
                     "SUMMARY:%s\r\nEND:VEVENT\r\nEND:VCALENDAR\r\n" % (i, text))
             ctype = form % ("text/calendar", cs if rng.random() < 0.8 else cs.upper())
             path, coll, mk = "/u/cal/rc.ics", "/u/cal/", "MKCALENDAR"
-        if "CHARSET=" in ctype:
-            continue          # (the parameter name is matched in lower case only by the code: not part of this level)
         with App({"auth": {"type": "none"}}) as app:
             if book:
                 app.request("MKCOL", coll, '<?xml version="1.0"?><D:mkcol xmlns:D="DAV:" xmlns:CR="urn:ietf:params:xml:ns:carddav"><D:set><D:prop><D:resourcetype>'
